@@ -107,7 +107,7 @@ def _compare(ctx, stream, version, ops, connects, token, key):
     return res, inp
 
 
-FAULTS = ["drop", "error", "garbage", "close", "refuse", "hang", "cancel"]
+FAULTS = ["drop", "error", "garbage", "close", "reset", "refuse", "hang", "cancel"]
 # faults that hit the RE-authentication of an exchange (V3): the connection is dropped first so that the
 # exchange has to handshake again, and the handshake is then not answered / answered with garbage
 HS_FAULTS = ["hs_drop", "hs_error", "hs_partial", "hs_late"]
@@ -139,6 +139,8 @@ def recovery(ctx, rng, version, faults):
                 director.set("ok", "garbage")
             elif f == "close":
                 director.set("ok", "close")
+            elif f == "reset":
+                director.set("ok", "reset")
             elif f in ("refuse", "hang"):
                 # force a reconnect that fails: drop the connection first (peer close), then refuse/hang
                 for tr in net.connections:
